@@ -99,6 +99,8 @@ def nz(d):
 
 
 class World:
+    variant = 'plain'
+
     def __init__(self):
         self.loop = VLoop()
         self.loop.enter()
@@ -116,10 +118,20 @@ class World:
 
         async def ok(name, sig, ctx):
             return nt.ValidResult.PASS
+        seq0 = 7 if self.variant == 'resumed' else 0
         self.inst = SvsInst(BASE, IDS['s'], lambda inst: self.missing.append(dict(inst.local_sv)),
-                            DigestSha256Signer(for_interest=True), ok, sync_interval=30, suppression_interval=0.2)
+                            DigestSha256Signer(for_interest=True), ok, sync_interval=30, suppression_interval=0.2,
+                            last_used_seq_num=seq0)
+        self.start_viol = []
+        if self.variant == 'resumed':
+            # an application resuming with sequence number 7 publishes once before it starts the instance
+            got = self.inst.new_data()
+            if got != 8 or self.inst.self_seq != 8:
+                self.start_viol.append(('C18|publish-seq|before-start', f'publication before start() after last_used_seq_num=7 got sequence number {got}'))
         self.inst.start(self.app)
         self.loop.drain()
+        if self.variant == 'resumed' and nz({WIRE_ID.get(bytes(k), '?'): v for k, v in self.inst.local_sv.items()}) != {'s': 8}:
+            self.start_viol.append(('C18|publish-seq|before-start', f'local vector after start is {dict(self.inst.local_sv)}, own entry should be 8'))
         self.H = None            # merge of the vectors heard in the current suppression period (None = not in one)
         self.nsent = len(self.face.sent)
 
@@ -179,7 +191,9 @@ class World:
 
     # -- operations -----------------------------------------------------------------------------------
     def apply(self, op):
-        viol = []
+        viol = list(self.start_viol)
+        if viol:
+            return viol
         kind = op[0]
         before = self.local()
         state_before = self.inst.state.name
@@ -284,6 +298,10 @@ class World:
         return viol
 
 
+class ResumedWorld(World):
+    variant = 'resumed'
+
+
 # -- relay scenario: the Interests one instance emits go through the real receive path of another -----------------
 def run_relay(seq):
     """seq over {'pubA','pubB','A>B','B>A','tickA','tickB'}"""
@@ -370,6 +388,7 @@ def plan(tier, seed):
     depth = 4
     ops = op_list(maxseq)
     units = [{'kind': 'bfs', 'first': i, 'depth': depth, 'maxseq': maxseq} for i in range(len(ops))]
+    units += [{'kind': 'bfs', 'first': i, 'depth': 2, 'maxseq': maxseq, 'variant': 'resumed'} for i in range(len(ops))]
     rd = 5 if tier == 'quick' else 7
     units += [{'kind': 'relay', 'first': f, 'depth': rd} for f in RELAY_OPS]
     return {
@@ -402,10 +421,10 @@ def unit(arg):
             acc.outcome(f"{hist[-1][0]}|{summary['state'] if summary else '?'}|{'viol' if viol else 'ok'}")
             acc.observe([repr(hist), repr(key), [v[0] for v in viol]])
             for sig, what in viol:
-                acc.violation(sig, what + f'; history {list(hist)}', {'kind': 'bfs', 'hist': [list(o) if o[0] != 'recv' else ['recv', [list(x) for x in o[1]]] + list(o[2:]) for o in hist]})
+                acc.violation(sig, what + f'; history {list(hist)}', {'kind': 'bfs', 'variant': arg.get('variant', 'plain'), 'hist': [list(o) if o[0] != 'recv' else ['recv', [list(x) for x in o[1]]] + list(o[2:]) for o in hist]})
             if acc.evaluations % 400 == 1:
                 acc.sample({'history': [repr(o) for o in hist], 'state': summary})
-        res = explore_histories(World, ops, arg['depth'], [(first,)], on_t)
+        res = explore_histories(ResumedWorld if arg.get('variant') == 'resumed' else World, ops, arg['depth'], [(first,)], on_t)
         acc.notes['bfs_states'] += res['states']
     else:
         for tail in itertools.product(RELAY_OPS, repeat=arg['depth'] - 1):
@@ -433,7 +452,7 @@ def replay(case):
     if case['kind'] == 'relay':
         return [{'sig': s, 'what': w} for s, w in run_relay(case['seq'])]
     hist = [_op_from_json(o) for o in case['hist']]
-    w = World()
+    w = ResumedWorld() if case.get('variant') == 'resumed' else World()
     out = []
     try:
         for op in hist:
